@@ -509,6 +509,8 @@ class ExprMixin:
                 if c is not True:
                     acc.append(B(c))
             return True if not acc else z3.And(*acc)
+        if isinstance(l, ASet) and isinstance(r, ASet):
+            return z3.And(self.aset_op("issubset", l, r), self.aset_op("issubset", r, l))       # set equality = mutual inclusion
         if isinstance(l, AList) or isinstance(r, AList):
             return self.alist_eq(l, r)
         if isinstance(l, (AbsObj,)) or isinstance(r, (AbsObj,)):
